@@ -4,6 +4,7 @@ import (
 	"fmt"
 	"os"
 	"path/filepath"
+	"regexp"
 	"sort"
 	"strings"
 	"testing"
@@ -75,9 +76,17 @@ func exec(req *sb.Request, c Case, what string) (*sb.Response, *pk.Failure) {
 // checkRoundTrip: printing and re-parsing preserves acceptance and behaviour, and printing is a
 // fixed point after one round; the optimizer's output behaves like its input.
 func checkRoundTrip(c Case) *pk.Failure {
-	orig, f := exec(c.Request("vm", "tree"), c, "original")
+	backends := []string{"vm", "tree"}
+	orig, f := exec(c.Request(backends...), c, "original")
 	if f != nil {
-		return f
+		// A host crash / hang of the original program is the finding of another property (C02):
+		// the interpreter alone still decides whether printing / optimising preserves the meaning.
+		backends = []string{"tree"}
+		if orig, f = exec(c.Request(backends...), c, "original"); f != nil {
+			pk.Discard("original-crashes")
+			return nil
+		}
+		pk.Extra("original-crashes-on-vm", 1)
 	}
 	if orig.Inconclusive {
 		pk.Inconclusive()
@@ -90,7 +99,7 @@ func checkRoundTrip(c Case) *pk.Failure {
 	want := behaviour(orig)
 	pk.Extra("programs", 1)
 	if c.Kind == "optimize" {
-		req := c.Request("vm", "tree")
+		req := c.Request(backends...)
 		req.Optimize = true
 		opt, f := exec(req, c, "optimized")
 		if f != nil {
@@ -123,7 +132,7 @@ func checkRoundTrip(c Case) *pk.Failure {
 	}
 	c1 := c
 	c1.Modules = texts
-	re, f := exec(c1.Request("vm", "tree"), c, "reparsed")
+	re, f := exec(c1.Request(backends...), c, "reparsed")
 	if f != nil {
 		f.Msg = "--- printed text\n" + texts[c.Entry] + "\n" + f.Msg
 		return f
@@ -191,7 +200,12 @@ func genCase(rt *rapid.T, kind string) (Case, bool) {
 		pk.Gate("aliasing(static)")
 		return Case{}, false
 	}
-	return Case{ProgCase: px.FromGenerated(g), Kind: kind}, true
+	c := Case{ProgCase: px.FromGenerated(g), Kind: kind}
+	if gate := gatedByText(c.ProgCase); gate != "" {
+		pk.Gate(gate)
+		return Case{}, false
+	}
+	return c, true
 }
 
 func runKind(t *testing.T, kind string) {
@@ -212,6 +226,8 @@ func TestParsedRoundTrip(t *testing.T)   { runKind(t, "parsed") }
 func TestAnalyzedRoundTrip(t *testing.T) { runKind(t, "analyzed") }
 func TestOptimizer(t *testing.T)         { runKind(t, "optimize") }
 
+var importRe = regexp.MustCompile(`(?m)^\s*import\b[^;]*\bfrom\s+([A-Za-z_][A-Za-z0-9_]*)\s*;`)
+
 // Shipped scripts: every example / test script that the analyzer accepts as a single module.
 func TestTableShipped(t *testing.T) {
 	pk.SkipIfReplay(t)
@@ -222,7 +238,9 @@ func TestTableShipped(t *testing.T) {
 		files = append(files, m...)
 	}
 	sort.Strings(files)
-	skip := map[string]bool{"dates": true, "sig_term": true, "pi": true, "e": true, "apery": true, "matrix": true}
+	// dates/sig_term: clock, no end; pi/e/apery/matrix: run time; try: prints a caught error object,
+	// whose line/column fields legitimately change when the text is laid out anew
+	skip := map[string]bool{"dates": true, "sig_term": true, "pi": true, "e": true, "apery": true, "matrix": true, "try": true}
 	k := 0
 	for _, f := range files {
 		name := strings.TrimSuffix(filepath.Base(f), ".hms")
@@ -233,12 +251,18 @@ func TestTableShipped(t *testing.T) {
 		if err != nil {
 			continue
 		}
+		// the script and the modules of its directory that it imports, transitively (printing
+		// an unrelated module of the directory must not decide this script's case)
 		mods := map[string]string{name: string(b)}
-		// modules of the tests directory may import each other
-		for _, g := range files {
-			if filepath.Dir(g) == filepath.Dir(f) && g != f {
-				gb, _ := os.ReadFile(g)
-				mods[strings.TrimSuffix(filepath.Base(g), ".hms")] = string(gb)
+		for todo := []string{string(b)}; len(todo) > 0; todo = todo[1:] {
+			for _, im := range importRe.FindAllStringSubmatch(todo[0], -1) {
+				if _, have := mods[im[1]]; have {
+					continue
+				}
+				if gb, err := os.ReadFile(filepath.Join(filepath.Dir(f), im[1]+".hms")); err == nil {
+					mods[im[1]] = string(gb)
+					todo = append(todo, string(gb))
+				}
 			}
 		}
 		for _, kind := range []string{"parsed", "analyzed", "optimize"} {
@@ -247,13 +271,6 @@ func TestTableShipped(t *testing.T) {
 				continue
 			}
 			c := Case{ProgCase: px.ProgCase{Modules: mods, Entry: name, Limits: sb.Limits{Call: 2048, Stack: 5000, Mem: 100000, TreeCall: 2048}, Note: f}, Kind: kind}
-			if kind == "parsed" {
-				// the parsed printer is applied to every module text; keep only the entry to stay focused
-				c.Modules = map[string]string{name: string(b)}
-				for n, t := range mods {
-					c.Modules[n] = t
-				}
-			}
 			pk.Eval()
 			fl := checkRoundTrip(c)
 			if fl != nil {
